@@ -174,6 +174,17 @@ class CallMixin:
         self.emit("call", node, callee=f"{recv.key()}.{name}", args=args, kwargs=kwargs or {}, resolved=False)
         return Term("call", (name, recv) + tuple(args), kind="Schema" if name in ("__call__", "__add__", "__or__", "__mod__") else None, node=node)
 
+    def _program_decorator(self, d: ast.expr, func: FuncInfo) -> bool:
+        """Is this decorator a function (or a call of a function) defined in the analysed program?"""
+        base = d.func if isinstance(d, ast.Call) else d
+        if not isinstance(base, ast.Name):
+            return False
+        if base.id in ("staticmethod", "classmethod", "property", "final", "overload", "abstractmethod"):
+            return False
+        b = func.module.bindings.get(base.id)
+        r = self.prog.resolve(func.module.name, base.id) if b is not None else None
+        return isinstance(r, FuncInfo)
+
     # ------------------------------------------------------------------ d42 functions
     def _call_func(self, fv: FuncV, args: List[Any], kwargs: Dict[str, V], node: Any) -> V:
         func = fv.func
@@ -182,6 +193,19 @@ class CallMixin:
             self._bind(func.args, args, kwargs, fr, None, node)
             return self.eval(func.body, fr)
         assert isinstance(func, FuncInfo)
+        # a decorator defined in the program wraps the function: calling the function calls the wrapper
+        if not getattr(fv, "raw", False) and getattr(func.node, "decorator_list", None):
+            decos = [d for d in func.node.decorator_list if self._program_decorator(d, func)]
+            if decos:
+                inner = FuncV(func, None, fv.closure)
+                inner.raw = True                    # type: ignore[attr-defined]
+                w: V = inner
+                dfr = Frame(None, func.module, {}, func.cls, None)
+                for d in reversed(decos):
+                    w = self._invoke(self.eval(d, dfr), [w], {}, node)
+                if isinstance(w, FuncV):
+                    return self._invoke(w, ([fv.self_val] if fv.self_val is not None else []) + list(args), kwargs, node)
+                self.emit("unsupported", node, what=f"decorator of {func.qualname} does not evaluate to a function")
         # contracts: callee handled by summary instead of inlining
         contract = self.contracts.get(func.qualname) or self.contracts.get(func.name)
         if contract is not None:
@@ -376,6 +400,10 @@ class CallMixin:
         c = exc_class_of(name)
         if c is not None and isinstance(c, type) and issubclass(c, BaseException):
             return ExcV(c, [a for a in args if isinstance(a, V)], node)
+        if name in ("functools.wraps", "functools.update_wrapper.partial"):
+            return Ext("functools.wraps.apply")        # wraps(f)(g) is g (metadata aside)
+        if name == "functools.wraps.apply" and len(args) == 1:
+            return args[0]
         if name == "builtins.bool" and h is None and len(args) == 1 and isinstance(args[0], Const) and not kwargs:
             return Const(bool(args[0].value))
         if name in KIND_NAMES and h is None:
@@ -458,6 +486,8 @@ class CallMixin:
             return None, kn
         if isinstance(k, ClassV):
             kn = k.cls.name
+            if isinstance(x, Sym) and x.origin and x.origin[0] == "dictkey":
+                return False, kn        # a token of a key TABLE: a plain hashable key (optional keys are stored unwrapped)
             if isinstance(x, SchemaV):
                 if x.cls is not None:
                     return x.cls.is_subclass_of(k.cls), kn
@@ -653,6 +683,19 @@ class CallMixin:
 
     def x_typing_cast(self, args: List[V], kwargs: Dict[str, V], node: Any) -> Optional[V]:
         return args[1] if len(args) == 2 else None
+
+    def x_next(self, args: List[V], kwargs: Dict[str, V], node: Any) -> Optional[V]:
+        # next(<the items a generator / iterator is known to yield>[, default])
+        if args:
+            src = self._unwrap1(args[0])
+            if isinstance(src, Term) and src.op in ("iter",) and src.args and isinstance(src.args[0], V):
+                src = self._unwrap1(src.args[0])
+            if isinstance(src, (ListV, TupleV)) and src.concrete():
+                if src.items:
+                    return src.items[0]
+                if len(args) > 1:
+                    return args[1]
+        return None
 
     def x_repr(self, args: List[V], kwargs: Dict[str, V], node: Any) -> Optional[V]:
         if args and isinstance(args[0], Const) and not isinstance(args[0].value, (float,)):
@@ -1097,11 +1140,13 @@ class CallMixin:
                     ev.data["raised"] = se
                     raise _Raise(ExcV(se, [], node), node, implicit=True)
             s = Sym(f"subst({recv.key()},{kwargs.get('value', NIL).key()})", "Schema", ("accept", recv, kwargs.get("value")))
-            return s
-        if family == "Validator":
-            return Sym(f"result({recv.key()})", "ValidationResult", ("accept", recv, kwargs.get("value")))
-        if family == "Generator":
-            return Sym(f"gen({recv.key()})", None, ("accept", recv))
-        if family == "Representor":
-            return Sym(f"repr({recv.key()})", "str", ("accept", recv, kwargs.get("indent")))
-        return Sym(f"accept({recv.key()})", None, ("accept", recv))
+        elif family == "Validator":
+            s = Sym(f"result({recv.key()})", "ValidationResult", ("accept", recv, kwargs.get("value")))
+        elif family == "Generator":
+            s = Sym(f"gen({recv.key()})", None, ("accept", recv))
+        elif family == "Representor":
+            s = Sym(f"repr({recv.key()})", "str", ("accept", recv, kwargs.get("indent")))
+        else:
+            s = Sym(f"accept({recv.key()})", None, ("accept", recv))
+        ev.data["result"] = s
+        return s
